@@ -75,13 +75,15 @@ func sweepCases() []sweepCase {
 }
 
 // sizedObject builds an object whose encoding has exactly total bytes.
-func sizedObject(format string, total, k int) *tobj {
+func sizedObject(format string, total, k int) *tobj { return sizedObjectPat(format, total, "random", k) }
+
+func sizedObjectPat(format string, total int, pattern string, k int) *tobj {
 	L := total - 200
 	if L < 0 {
 		L = 0
 	}
 	for try := 0; try < 8; try++ {
-		o := mkObject(format, L, "random", k)
+		o := mkObject(format, L, pattern, k)
 		if len(o.enc) == total {
 			return o
 		}
@@ -133,4 +135,121 @@ func sweepRanges(L uint64) []common.PayloadRange {
 		common.NewPayloadRange(L-1, 1), common.NewPayloadRange(L/2, L-L/2), common.NewPayloadRangeBounds(0, L-1), common.NewPayloadRangeBounds(L/2, L+5),
 		common.NewPayloadRange(L, 1), common.NewPayloadRangeBounds(L, L),
 	}
+}
+
+// ---------- header-buffer size sweep (see props/c10/sizesweep.go) ----------
+
+type sizeCase struct {
+	Family string `json:"family"`
+	Plain  int    `json:"plain_size"`
+	Rand   int    `json:"random_payload_bytes,omitempty"`
+	Layout string `json:"layout,omitempty"` // single-file | first-member | last-member (set per object)
+}
+
+func (c sizeCase) pattern() string {
+	switch c.Family {
+	case "incompressible-zstd", "raw":
+		return "random"
+	case "compressible-zstd":
+		return "periodic"
+	}
+	return fmt.Sprintf("mixed:%d", c.Rand)
+}
+
+func relB(n int) string {
+	switch {
+	case n < hbuf:
+		return "<B"
+	case n == hbuf:
+		return "=B"
+	case n < 2*hbuf:
+		return "B..2B"
+	case n == 2*hbuf:
+		return "=2B"
+	}
+	return ">2B"
+}
+
+func sizeCases(quick bool) []sizeCase {
+	w, w2 := 20, 6 // window around B; around the caller buffer 2B
+	if !quick {
+		w, w2 = 64, 64
+	}
+	var cs []sizeCase
+	for _, b := range []int{hbuf, 2 * hbuf} {
+		ww := w
+		if b != hbuf {
+			ww = w2
+		}
+		// incompressible data grows by the frame overhead: start lower so that the stored size sweeps the window too
+		for s := b - ww - 24; s <= b+ww; s++ {
+			cs = append(cs, sizeCase{Family: "incompressible-zstd", Plain: s})
+		}
+		for s := b - ww; s <= b+ww; s++ {
+			cs = append(cs, sizeCase{Family: "raw", Plain: s}, sizeCase{Family: "compressible-zstd", Plain: s})
+		}
+	}
+	plain := 3*hbuf + 77
+	stored := func(r int) int {
+		return len(compress(sizedObjectPat("size-probe", plain, fmt.Sprintf("mixed:%d", r), 0).enc))
+	}
+	lo, hi := 0, hbuf+64
+	for lo < hi {
+		m := (lo + hi) / 2
+		if stored(m) >= hbuf {
+			hi = m
+		} else {
+			lo = m + 1
+		}
+	}
+	for r := lo - w - 8; r <= lo+w+8; r++ {
+		cs = append(cs, sizeCase{Family: "mixed-zstd", Plain: plain, Rand: r})
+	}
+	return cs
+}
+
+// buildSizeSweep stores, for every case, the object as a single file, as first and as last member of a
+// 2-member combined file; returns the observed (plain, stored) position classes.
+func buildSizeSweep(w *world, cases []sizeCase) map[string]int {
+	root := w.dir + "/sizesweep"
+	t := newTree(root, fstree.WithCombinedCountLimit(1))
+	w.closer = append(w.closer, func() { t.Close() })
+	classes := map[string]int{}
+	var objs []*tobj
+	for _, c := range cases {
+		format := fmt.Sprintf("size/%s/%d/%d", c.Family, c.Plain, c.Rand)
+		z := c.Family != "raw"
+		mk := func(layout string, k int) (*tobj, []byte) {
+			o := sizedObjectPat(format, c.Plain, c.pattern(), k)
+			cc := c
+			cc.Layout = layout
+			o.size = &cc
+			return o, o.data(z)
+		}
+		small := func(k int) (*tobj, []byte) {
+			o := sizedObjectPat(format, 0x141+k, "random", k)
+			return o, o.enc
+		}
+		o0, d0 := mk("single-file", 0)
+		must(t.Put(o0.addr, d0), "put size-sweep object")
+		o1, d1 := mk("first-member", 1)
+		s1, sd1 := small(2)
+		putBatchOrdered(t, root, []*tobj{o1, s1}, [][]byte{d1, sd1})
+		o2, d2 := mk("last-member", 3)
+		s2, sd2 := small(4)
+		putBatchOrdered(t, root, []*tobj{s2, o2}, [][]byte{sd2, d2})
+		objs = append(objs, o0, o1, o2)
+		classes[fmt.Sprintf("%s:plain%s,stored%s", c.Family, relB(c.Plain), relB(len(d0)))]++
+	}
+	if len(cases) > 1 {
+		for _, need := range []string{"incompressible-zstd:plain<B,stored=B", "incompressible-zstd:plain<B,storedB..2B", "compressible-zstd:plainB..2B,stored<B",
+			"mixed-zstd:plain>2B,stored<B", "mixed-zstd:plain>2B,stored=B", "mixed-zstd:plain>2B,storedB..2B", "raw:plain=B,stored=B"} {
+			if classes[need] == 0 {
+				run.Fatal("size sweep does not reach class %s (zstd frame overhead changed?): %v", need, classes)
+			}
+		}
+	}
+	w.layers["fstree/size-sweep"] = storLayer{"fstree", t}
+	w.objs["fstree/size-sweep"] = objs
+	return classes
 }
